@@ -13,7 +13,7 @@ for d in $src/C??; do
     [ -f $d/mutant_$i.diff ] || continue
     name="${id}-${tag}$i"
     [ -f /verif/seeded/$name/meta.json ] && [ -z "$mode" ] && continue
-    sed 's#/tmp/sa/rpy2stub#/verif/stubs#g' $d/demo_$i.py > /tmp/_demo_$name.py
+    sed 's#/tmp/s[a-z]/rpy2stub#/verif/stubs#g' $d/demo_$i.py > /tmp/_demo_$name.py
     checks=$(rel $id); [ "$mode" = "all" ] && checks=all
     /verif/tools/seed_eval.py $name $id $d/mutant_$i.diff /tmp/_demo_$name.py $d/note_$i.txt --checks=$checks
   done
